@@ -675,3 +675,387 @@ def run_stage_sh(ctx, quick, model_ok, pool=None):
             tie = tie or 'crash model disagrees with the implementation on ServerHello %s (live %s) bytes=%s' % (
                 metas[i][0], metas[i][2], metas[i][3][:200])
     return tie, crashes
+
+
+# ==========================================================================================
+# Second ClientHello after a HelloRetryRequest (server side, nested region HrrChChecks)
+PREAMBLE_HRR = '''
+Definition kind_code (k : string) : Z :=
+  if String.eqb k "AttributeError" then 1 else if String.eqb k "TypeError" then 2 else
+  if String.eqb k "IndexError" then 3 else if String.eqb k "UnicodeDecodeError" then 4 else
+  if String.eqb k "KeyError" then 5 else if String.eqb k "ValueError" then 6 else
+  if String.eqb k "AssertionError" then 7 else if String.eqb k "UnboundLocalError" then 8 else 99.
+Definition ocode (o : outcome unit) : Z :=
+  match o with OK _ => 0 | Alert d => 1000 + d | Raised _ => 2000 | Crash k _ => 3000 + kind_code k end.
+Definition CaseH := (ClientHello_r * Z * Z)%type.
+Definition chk_hrr (c : CaseH) : bool :=
+  let '(ch, group, code) := c in ocode (HrrChChecks ch group) =? code.
+'''
+_HRR_STATE = {}
+
+
+def _hrr_state():
+    if not _HRR_STATE:
+        unit = units_c08.hrr_ch_unit()
+        _HRR_STATE['schema'] = unit.schema_thunk()
+        unit.translate()
+        _HRR_STATE['fn'] = unit.func
+        _HRR_STATE['start'] = unit.last.lines[0]
+        _HRR_STATE['end'] = unit.last.lines[1] + 1       # refined below: the end marker statement
+        import ast
+        with open(os.path.join(vlib.REPO, 'tlslite/tlsconnection.py')) as f:
+            src = f.read()
+        for n in ast.walk(ast.parse(src)):
+            if isinstance(n, ast.stmt) and ast.unparse(n).startswith(unit.end) and n.lineno > _HRR_STATE['start']:
+                _HRR_STATE['end'] = n.lineno
+                break
+    return _HRR_STATE
+
+
+def hello_pair(rng):
+    """(first ClientHello that makes a secp256r1-only server send a HelloRetryRequest,
+        second ClientHello with a generated key_share extension, label)"""
+    from tlslite.messages import ClientHello
+    from tlslite.extensions import (TLSExtension, SupportedVersionsExtension, SupportedGroupsExtension,
+                                    SignatureAlgorithmsExtension, ClientKeyShareExtension, KeyShareEntry)
+    from tlslite.constants import ExtensionType as ET
+
+    def share(g, n):
+        return KeyShareEntry().create(g, bytearray(rng.randrange(1, 256) for _ in range(n)))
+    common = [SupportedVersionsExtension().create([(3, 4)]), SupportedGroupsExtension().create([29, 23]),
+              SignatureAlgorithmsExtension().create([(8, 4), (4, 1), (8, 9)])]
+    rnd = bytearray(rng.randrange(256) for _ in range(32))
+    sid = bytearray(rng.randrange(256) for _ in range(32))
+
+    def hello(exts):
+        return bytes(ClientHello().create((3, 3), rnd, sid, [0x1301, 0x1302], extensions=exts).write())
+    ch1 = hello(common + [ClientKeyShareExtension().create([share(29, 32)])])
+    opts = ['absent', 'empty', 'emptyvec', 'ok', 'wrong-group', 'two', 'two-wrong', 'ok']
+    k = opts[rng.randrange(len(opts))]
+    if k == 'absent':
+        ks = []
+    elif k == 'empty':
+        ks = [TLSExtension(extType=ET.key_share).create(bytearray(0))]
+    elif k == 'emptyvec':
+        ks = [TLSExtension(extType=ET.key_share).create(bytearray(b'\x00\x00'))]
+    elif k == 'ok':
+        ks = [ClientKeyShareExtension().create([share(23, 65)])]
+    elif k == 'wrong-group':
+        ks = [ClientKeyShareExtension().create([share(29, 32)])]
+    elif k == 'two':
+        ks = [ClientKeyShareExtension().create([share(23, 65), share(29, 32)])]
+    else:
+        ks = [ClientKeyShareExtension().create([share(29, 32), share(24, 97)])]
+    extra = [TLSExtension(extType=0x7777).create(bytearray(rng.randrange(3)))] if rng.random() < 0.3 else []
+    pos = rng.randrange(len(common) + 1)
+    ch2 = hello(common[:pos] + ks + common[pos:] + extra)
+    return ch1, ch2, 'ks-' + k
+
+
+def hrr_case(seed):
+    import random
+    import c08_fuzz
+    from tlslite.messages import ClientHello, RecordHeader3
+    from tlslite.utils.codec import Parser
+    S = _hrr_state()
+    rng = random.Random(seed)
+    ch1, ch2, label = hello_pair(rng)
+    out = dict(label=label, hex=ch2.hex(), hex1=ch1.hex(), lit=None, tie=None, crash=None, kind=None, seed=seed)
+    pair = loop.Pair()
+    cert, key = loop.creds('rsa')
+    st = loop.settings(eccCurves=['secp256r1'], keyShares=['secp256r1'])
+    gen = pair.server.handshakeServerAsync(certChain=cert, privateKey=key, settings=st)
+    cap = {}
+    reached = [False]
+
+    def tracer(frame, event, arg):
+        if frame.f_code.co_name != S['fn']:
+            return None
+
+        def local(frame, event, arg):
+            if event == 'line' and frame.f_lineno == S['start']:
+                cap['entered'] = True
+                cap['group'] = frame.f_locals.get('selected_group')
+            if event == 'line' and frame.f_lineno >= S['end'] and cap.get('entered'):
+                reached[0] = True
+            return local
+        return local
+
+    def run():
+        pair.ssock.inbuf += RecordHeader3().create((3, 3), 22, len(ch1)).write() + ch1
+        sys.settrace(tracer)
+        try:
+            r1 = loop.run_gen(gen, max_steps=400)
+            if not isinstance(r1[1] if r1[0] == 'exc' else None, loop.Deadlock):
+                return None, r1
+            pair.ssock.inbuf += RecordHeader3().create((3, 3), 22, len(ch2)).write() + ch2
+            return loop.run_gen(gen, max_steps=3000), r1
+        finally:
+            sys.settrace(None)
+    try:
+        res, r1 = c08_fuzz.with_watchdog(run)
+    except c08_fuzz.HangTimeout as e:
+        sys.settrace(None)
+        fn, line = c08_fuzz.hang_frame(e)
+        out['crash'] = ('hang:%s:%s' % (fn, c08_fuzz._norm(line)), 'does not return (spinning in %s: `%s`)' % (fn, line))
+        return out
+    if res is None:
+        out['tie'] = 'the first ClientHello did not make the server wait for a second one: %r' % (loop.classify(r1),)
+        return out
+    cls = loop.classify(res)
+    exc = res[1] if res[0] == 'exc' else None
+    out['cls'] = cls
+    if not cap.get('entered'):
+        out['tie'] = 'server did not reach the second-ClientHello checks (%s): %r' % (label, cls)
+        return out
+    if reached[0]:
+        code = 0
+    elif cls[0] == 'LocalAlert':
+        code = 1000 + cls[1]
+    elif cls[0] in ('TLSError', 'AuthError'):
+        code = 2000
+    elif cls[0] == 'Other':
+        code = 3000 + KIND_CODES.get(cls[1], 99)
+    else:
+        code = -1
+    out['code'] = code
+    try:
+        ch = ClientHello().parse(Parser(bytearray(ch2[1:])))
+        out['lit'] = '(%s, %s, %s)' % (to_lit(ch, OBJ('ClientHello'), S['schema'], 'clientHello'), vlib.zlit(cap['group']),
+                                       vlib.zlit(code))
+    except SchemaMismatch as e:
+        out['tie'] = 'schema mismatch (second ClientHello): %s' % e
+        return out
+    except Exception as e:  # noqa
+        out['tie'] = 'generated second ClientHello does not parse: %r' % (e,)
+        return out
+    out['kind'] = 'ok' if code == 0 else 'alert%d' % (code - 1000) if 1000 <= code < 2000 else 'raised' if code == 2000 else \
+        'crash:%s' % cls[1] if code >= 3000 else 'other'
+    if code >= 3000:
+        fn, line = c08_fuzz.innermost_tlslite_frame(exc)
+        out['crash'] = ('crash:%s:%s:%s' % (type(exc).__name__, fn, c08_fuzz._norm(line)),
+                        'raises %s: %s (in %s: `%s`)' % (type(exc).__name__, str(exc)[:100], fn, line))
+    elif code == -1:
+        out['tie'] = 'server neither left the second-ClientHello checks nor failed (%s): %r' % (label, cls)
+    return out
+
+
+def run_stage_hrr(ctx, quick, model_ok, pool=None):
+    n = 64 if quick else 1500
+    seeds = [ctx.rng.randrange(1 << 62) for _ in range(n)]
+    outs = pool.map(hrr_case, seeds, chunksize=4) if pool is not None else [hrr_case(x) for x in seeds]
+    lits, metas, crashes = [], [], []
+    tie = None
+    for o in outs:
+        tie = tie or o['tie']
+        if o['crash']:
+            crashes.append((o['label'], o.get('code'), o.get('cls'), o['hex'], o['hex1'], o['crash'][0], o['crash'][1]))
+        if o['lit'] is None:
+            continue
+        lits.append(o['lit'])
+        metas.append((o['label'], o['code'], o['cls'], o['hex']))
+        ctx.count('hrr-second-hello-region-live', 1, [(o['kind'], o['label'])])
+    if model_ok and lits:
+        bad, errs = vlib.coq_bad_indices('C08r', ['Base.C08_Lib', 'Gen.HrrChChecks'], 'CaseH', 'chk_hrr', lits,
+                                         shard=max(8, (len(lits) + 15) // 16), preamble=PREAMBLE_HRR)
+        ctx.count('hrr-second-hello-model-vs-impl(vm_compute)', len(lits), [('agree', len(lits) - len(bad))])
+        for e in errs:
+            tie = tie or 'case evaluation failed: ' + e[:400]
+        for i in bad[:5]:
+            ctx.log('second-ClientHello model/impl disagreement: %s live=%s' % (metas[i][0], metas[i][1:3]))
+            tie = tie or 'crash model disagrees with the implementation on the second ClientHello %s (live %s) bytes=%s' % (
+                metas[i][0], metas[i][2], metas[i][3][:200])
+    return tie, crashes
+
+
+# ==========================================================================================
+# Client: handling of a HelloRetryRequest (nested region HrrShChecks)
+PREAMBLE_HRRSH = '''
+Definition kind_code (k : string) : Z :=
+  if String.eqb k "AttributeError" then 1 else if String.eqb k "TypeError" then 2 else
+  if String.eqb k "IndexError" then 3 else if String.eqb k "UnicodeDecodeError" then 4 else
+  if String.eqb k "KeyError" then 5 else if String.eqb k "ValueError" then 6 else
+  if String.eqb k "AssertionError" then 7 else if String.eqb k "UnboundLocalError" then 8 else 99.
+Definition ocode (o : outcome unit) : Z :=
+  match o with OK _ => 0 | Alert d => 1000 + d | Raised _ => 2000 | Crash k _ => 3000 + kind_code k end.
+Definition CaseR := (ClientHello_r * ServerHello_r * Z)%type.
+Definition gen0 (g : Z) (_ : ver) : KeyShareEntry_r := {| KeyShareEntry_group := g; KeyShareEntry_key_exchange := [] |}.
+Definition chk_hrrsh (c : CaseR) : bool :=
+  let '(ch, hrr, code) := c in ocode (HrrShChecks ch hrr gen0) =? code.
+'''
+_HRRSH_STATE = {}
+
+
+def _hrrsh_state():
+    if not _HRRSH_STATE:
+        import ast
+        unit = units_c08.hrr_sh_unit()
+        _HRRSH_STATE['schema'] = unit.schema_thunk()
+        unit.translate()
+        _HRRSH_STATE['fn'] = unit.func
+        _HRRSH_STATE['start'] = unit.last.lines[0]
+        with open(os.path.join(vlib.REPO, 'tlslite/tlsconnection.py')) as f:
+            src = f.read()
+        for n in ast.walk(ast.parse(src)):
+            if isinstance(n, ast.stmt) and ast.unparse(n).startswith(unit.end) and n.lineno > _HRRSH_STATE['start']:
+                _HRRSH_STATE['end'] = n.lineno
+                break
+    return _HRRSH_STATE
+
+
+def gen_hrr(rng, ch):
+    """A HelloRetryRequest for the real client's ClientHello `ch` (object)."""
+    from tlslite.messages import ServerHello
+    from tlslite.extensions import (TLSExtension, SrvSupportedVersionsExtension, HRRKeyShareExtension)
+    from tlslite.constants import ExtensionType as ET, TLS_1_3_HRR
+    label = []
+
+    def pick(name, options, good):
+        if rng.random() < 0.7:
+            i = options.index(rng.choice(good))
+        else:
+            i = rng.randrange(len(options))
+        label.append('%s%d' % (name, i))
+        return options[i]
+    groups = list(ch.getExtension(ET.supported_groups).groups)
+    shared = [s.group for s in ch.getExtension(ET.key_share).client_shares]
+    noshare = [g for g in groups if g not in shared] or [0x1234]
+    exts = [SrvSupportedVersionsExtension().create((3, 4))]
+    ks = pick('ks', ['absent', 'offered-noshare', 'has-share', 'unoffered'], ['offered-noshare', 'absent'])
+    if ks != 'absent':
+        g = {'offered-noshare': noshare[0], 'has-share': shared[0], 'unoffered': 0x0a0a}[ks]
+        exts.append(HRRKeyShareExtension().create(g))
+    ck = pick('ck', ['absent', 'present', 'empty'], ['absent', 'present'])
+    if ck == 'present':
+        exts.append(TLSExtension(extType=ET.cookie, hrr=True).create(bytearray(b'\x00\x03abc')))
+    elif ck == 'empty':
+        exts.append(TLSExtension(extType=ET.cookie, hrr=True).create(bytearray(0)))
+    ex = pick('ex', ['none', 'in-hello', 'not-in-hello', 'unknown'], ['none'])
+    if ex == 'in-hello':
+        exts.append(TLSExtension(extType=ET.extended_master_secret, hrr=True).create(bytearray(0)))
+    elif ex == 'not-in-hello':
+        exts.append(TLSExtension(extType=ET.alpn, hrr=True).create(bytearray(b'\x00\x03\x02h2')))
+    elif ex == 'unknown':
+        exts.append(TLSExtension(extType=0x7777, hrr=True).create(bytearray(b'\x01')))
+    rng.shuffle(exts)
+    sid = pick('sid', [bytes(ch.session_id), b'', bytes(32)], [bytes(ch.session_id)])
+    suite = [x for x in ch.cipher_suites if (x >> 8) == 0x13][0]
+    hrr = ServerHello().create((3, 3), bytearray(TLS_1_3_HRR), bytearray(sid), suite, extensions=exts)
+    return bytes(hrr.write()), '-'.join(label)
+
+
+def hrrsh_case(seed):
+    import random
+    import c08_fuzz
+    from tlslite.messages import ServerHello, RecordHeader3
+    from tlslite.utils.codec import Parser
+    S = _hrrsh_state()
+    rng = random.Random(seed)
+    out = dict(label='?', hex='', lit=None, tie=None, crash=None, kind=None, seed=seed)
+    pair = loop.Pair()
+    kw = {'alpn': [b'http/1.1']} if rng.random() < 0.3 else {}
+    g = pair.client.handshakeClientCert(async_=True, settings=loop.settings(), **kw)
+    cap = {}
+    reached = [False]
+
+    def tracer(frame, event, arg):
+        if frame.f_code.co_name != S['fn']:
+            return None
+        cap.setdefault('clientHello', frame.f_locals.get('clientHello'))
+
+        def local(frame, event, arg):
+            if event == 'line' and frame.f_lineno == S['start'] and not cap.get('entered'):
+                cap['entered'] = True
+                import copy
+                # the own hello as it is when the region is entered (the region itself modifies it)
+                cap['clientHello0'] = copy.deepcopy(frame.f_locals.get('clientHello'))
+            if event == 'line' and frame.f_lineno >= S['end'] and cap.get('entered'):
+                reached[0] = True
+            return local
+        return local
+
+    def run():
+        sys.settrace(tracer)
+        try:
+            r1 = loop.run_gen(g, max_steps=200)
+            if cap.get('clientHello') is None:
+                return None
+            hrr_bytes, label = gen_hrr(rng, cap['clientHello'])
+            cap['hrr_bytes'], cap['label'] = hrr_bytes, label
+            pair.csock.inbuf += RecordHeader3().create((3, 3), 22, len(hrr_bytes)).write() + hrr_bytes
+            return loop.run_gen(g, max_steps=3000)
+        finally:
+            sys.settrace(None)
+    try:
+        res = c08_fuzz.with_watchdog(run)
+    except c08_fuzz.HangTimeout as e:
+        sys.settrace(None)
+        fn, line = c08_fuzz.hang_frame(e)
+        out['crash'] = ('hang:%s:%s' % (fn, c08_fuzz._norm(line)), 'client does not return (spinning in %s: `%s`)' % (fn, line))
+        return out
+    if res is None:
+        out['tie'] = 'client did not reach _clientGetServerHello in the harness'
+        return out
+    out['label'], out['hex'] = cap['label'], cap['hrr_bytes'].hex()
+    cls = loop.classify(res)
+    exc = res[1] if res[0] == 'exc' else None
+    out['cls'] = cls
+    if not cap.get('entered'):
+        out['tie'] = 'client did not enter the HelloRetryRequest handling (%s): %r' % (cap['label'], cls)
+        return out
+    code = 0 if reached[0] else 1000 + cls[1] if cls[0] == 'LocalAlert' else 2000 if cls[0] in ('TLSError', 'AuthError') else \
+        3000 + KIND_CODES.get(cls[1], 99) if cls[0] == 'Other' else -1
+    out['code'] = code
+    ch0 = cap['clientHello0']
+    # the hypothesis of hrr_handling_crash_free on the client's own hello (as observed at region entry)
+    sg, ks = ch0.getExtension(10), ch0.getExtension(51)
+    if ch0.extensions is None or sg is None or sg.groups is None or ks is None or ks.client_shares is None:
+        out['tie'] = 'own ClientHello violates hrr_own_ok (supported_groups/key_share missing)'
+        return out
+    try:
+        hrr = ServerHello().parse(Parser(bytearray(cap['hrr_bytes'][1:])))
+        out['lit'] = '(%s, %s, %s)' % (to_lit(ch0, OBJ('ClientHello'), S['schema'], 'clientHello'),
+                                       to_lit(hrr, OBJ('ServerHello'), S['schema'], 'hello_retry'), vlib.zlit(code))
+    except SchemaMismatch as e:
+        out['tie'] = 'schema mismatch (HelloRetryRequest region): %s' % e
+        return out
+    except Exception as e:  # noqa
+        out['tie'] = 'generated HelloRetryRequest does not parse: %r' % (e,)
+        return out
+    out['kind'] = 'ok' if code == 0 else 'alert%d' % (code - 1000) if 1000 <= code < 2000 else 'raised' if code == 2000 else \
+        'crash:%s' % cls[1] if code >= 3000 else 'other'
+    if code >= 3000:
+        fn, line = c08_fuzz.innermost_tlslite_frame(exc)
+        out['crash'] = ('crash:%s:%s:%s' % (type(exc).__name__, fn, c08_fuzz._norm(line)),
+                        'raises %s: %s (in %s: `%s`)' % (type(exc).__name__, str(exc)[:100], fn, line))
+    elif code == -1:
+        out['tie'] = 'client neither left the HelloRetryRequest handling nor failed (%s): %r' % (cap['label'], cls)
+    return out
+
+
+def run_stage_hrrsh(ctx, quick, model_ok, pool=None):
+    n = 64 if quick else 1500
+    seeds = [ctx.rng.randrange(1 << 62) for _ in range(n)]
+    outs = pool.map(hrrsh_case, seeds, chunksize=4) if pool is not None else [hrrsh_case(x) for x in seeds]
+    lits, metas, crashes = [], [], []
+    tie = None
+    for o in outs:
+        tie = tie or o['tie']
+        if o['crash']:
+            crashes.append((o['label'], o.get('code'), o.get('cls'), o['hex'], o['seed'], o['crash'][0], o['crash'][1]))
+        if o['lit'] is None:
+            continue
+        lits.append(o['lit'])
+        metas.append((o['label'], o['code'], o['cls'], o['hex']))
+        ctx.count('hrr-handling-region-live', 1, [(o['kind'],) + tuple(o['label'].split('-')[:3])])
+    if model_ok and lits:
+        bad, errs = vlib.coq_bad_indices('C08q', ['Base.C08_Lib', 'Gen.HrrShChecks'], 'CaseR', 'chk_hrrsh', lits,
+                                         shard=max(8, (len(lits) + 15) // 16), preamble=PREAMBLE_HRRSH)
+        ctx.count('hrr-handling-model-vs-impl(vm_compute)', len(lits), [('agree', len(lits) - len(bad))])
+        for e in errs:
+            tie = tie or 'case evaluation failed: ' + e[:400]
+        for i in bad[:5]:
+            ctx.log('HelloRetryRequest model/impl disagreement: %s live=%s' % (metas[i][0], metas[i][1:3]))
+            tie = tie or 'crash model disagrees with the implementation on HelloRetryRequest %s (live %s) bytes=%s' % (
+                metas[i][0], metas[i][2], metas[i][3][:200])
+    return tie, crashes
